@@ -109,5 +109,9 @@ def run(S):
     deep.report(S, 'C05', f9)
     f10 = adjacency.explore_embedded(S, want=('C05',))
     adjacency.report(S, 'C05', [(l, i) for l, i in f10 if l.startswith('C05:')])
+    # never hangs: a converter that converts a child once per layout alternative doubles the work per nesting level; the recursive families of C18 up to
+    # depth 4 (8): every node is converted at most once per path, confirmed by the running time of the real formatter
+    from . import c18
+    c18.explore(S, 4 if S.tier == 'quick' else 8, prefix='C05')
     S.assumptions += comments.ASSUMPTIONS + lists.ASSUMPTIONS
     return S.finish(level='other', explanation=EXPLANATION, trusted=['mirsym encoder', 'std / typst-syntax / pretty contracts'])
